@@ -99,6 +99,17 @@ def gen_cases(rng, tier):
                     v = ["w", G.rewrite_text(rng, "in", pos + 1)]
                     c["turns"][pos]["vin"] = [[i, (v if i == rid else vv)] for i, vv in c["turns"][pos]["vin"]]
                     cases.append(c)
+    # Colang 2.x: every way the answering flow waits for the user (`user said something` / a literal / a regular
+    # expression; the unexpected-utterance path is the dialog configuration): accepted, then rejected by each rail
+    for usaid in ("something", "plain", "regex"):
+        for exc in (False, True):
+            for ins in ([0], [1, 0]):
+                cfg = {"ver": "2.x", "dialog": False, "exc": exc, "in": list(ins), "out": [0], "carry": "state", "usaid": usaid}
+                for rid in ins:
+                    c = dict(cfg)
+                    c["turns"] = [G.clean_turn(rng, cfg, k + 1) for k in range(3)]
+                    c["turns"][1]["vin"] = [[i, ("r" if i == rid else vv)] for i, vv in c["turns"][1]["vin"]]
+                    cases.append(c)
     if tier == "thorough":
         # all 3^n verdict tables (accept / reject / rewrite) for n <= 3 input rails at every turn position <= 3
         import itertools
